@@ -1,4 +1,5 @@
 // C02 — igris::vector (vector.h): large-size tree checks (see c02_large.hpp). Linked into c02_main.
+#include "c02_extra.hpp"
 #include "c02_large.hpp"
 #include <igris/container/vector.h>
 
@@ -13,4 +14,8 @@ namespace
 
 }
 
-MC_INIT { c02::register_large_vectors<VecTraits>(); }
+MC_INIT
+{
+    c02::register_large_vectors<VecTraits>();
+    c02::register_extra<VecTraits>();
+}
